@@ -66,7 +66,8 @@ def solve_one(job):
     name, code, timeout_ms = job
     t = time.time()
     try:
-        r = M.check_function(name, code, timeout_ms)
+        # vacuity witness on a deterministic tenth of the functions
+        r = M.check_function(name, code, timeout_ms, vacuity_witness=(sum(map(ord, name)) % 10 == 0))
     except Exception as e:   # noqa
         r = {"status": "unknown", "reason": "%s: %s" % (type(e).__name__, e), "violations": []}
     r["name"] = name
@@ -228,7 +229,7 @@ def report(a, scratch, results, viol, unknown, unmodelled, mism, real, crashed, 
     coverage = {
         "programs": len(results), "disagreements_checked": len(viol) + len(real) + len(mism),
         "samples": samples,
-        "functions_ok": okc, "functions_violating": len(viol), "functions_undecided": len(unknown),
+        "functions_ok": okc, "vacuity_witnesses (a return is reachable in the same clauses)": sum(1 for r in results if r.get("vacuity_witness")), "functions_violating": len(viol), "functions_undecided": len(unknown),
         "functions_with_operand_stack_obligations_decided": sum(1 for r in results if r.get("operand_stack_decided")),
         "functions_with_calls_or_unmodelled_opcodes (operand-stack obligations undecided there, frames and jumps decided)": sum(1 for r in results if not r.get("operand_stack_decided")),
         "error_rules_discharged (jump range, frame underflow/leak/imbalance/accumulation, operand-stack requirements)": sites,
